@@ -7,6 +7,9 @@ def gens(tier):
     g = [{"module": "MC_Subtype", "constants": {"Universe": '"data"', "NDefs": 2},
           "invariants": ["Reflexive", "Transitive", "EqImpliesSub", "EqEquiv", "ReachAgrees", "Emit"]},
          {"module": "MC_Subtype", "constants": {"Universe": '"ref"', "NDefs": 2},
+          "invariants": ["Reflexive", "Transitive", "EqImpliesSub", "EqEquiv", "ReachAgrees", "Emit"]},
+         # optional-like types behind one and two names, in absent-field / trailing-argument position
+         {"module": "MC_Subtype", "constants": {"Universe": '"alias"', "NDefs": 4},
           "invariants": ["Reflexive", "Transitive", "EqImpliesSub", "EqEquiv", "ReachAgrees", "Emit"]}]
     # the memo algorithm as designed after the fix (failed probes restore the memo): model-checked for soundness,
     # and every history in which a probe failed is replayed on the real shared memo
